@@ -73,6 +73,23 @@ def svdKernelDim (tol : K) (m n : ℕ) (s : List K) : ℕ := (n - m) + (s.filter
 def svdKernelRows (tol : K) (m : ℕ) (s : List K) (Vh : Matrix (Fin n) (Fin n) K) : List (Fin n → K) :=
   ((List.finRange n).drop (n - svdKernelDim tol m n s)).map fun i => Vh i
 
+/-- the `m × n` matrix `Σ` of the SVD contract `A = u Σ vh`: the singular values `s`
+(`len(s) = min(m,n)`) on the main diagonal, zero elsewhere -/
+def sigmaMat (m : ℕ) (s : List K) : Matrix (Fin m) (Fin n) K :=
+  fun a i => if a.val = i.val then s.getD i.val 0 else 0
+
+/-- the contract assumed of `numpy.linalg.svd(A)` returning `(u, s, vh)` (together with exact
+arithmetic: a singular value is below `tol` iff it is zero) -/
+structure SvdContract {m : ℕ} [IsStrictOrderedRing K] (tol : K) (A : Matrix (Fin m) (Fin n) K) (s : List K)
+    (U : Matrix (Fin m) (Fin m) K) (Vh : Matrix (Fin n) (Fin n) K) : Prop where
+  recon : A = U * sigmaMat m s * Vh
+  uorth : U * Uᵀ = 1
+  vorth : Vh * Vhᵀ = 1
+  len : s.length = min m n
+  sorted : s.Pairwise (fun a b => b ≤ a)
+  nonneg : ∀ y ∈ s, 0 ≤ y
+  exact : ∀ y ∈ s, y < tol ↔ y = 0
+
 /-! ### spheres -/
 
 /-- `t_pts = points[1:] − points[0]` -/
